@@ -1,5 +1,7 @@
 (* C11 model driver.  case line:  <kind> <F|S> <dist> <logStart> <S|M> | ops ... | <cap> <wf0> <nothrow> <wfodd> ann ann ...
    (the third part is the failure schedule observed on the real run, see harness.cpp); output = the same
+   ops: i r q v x t c as in harness.cpp; e/j = Extract / Insert(ExtractedItem) as ORemove / OInsert of the held key;
+   p<m>_<r> = Remove(filter); b<n> = n plain insertions; m = move round trip (no model step); y = OClear true.
    per-op tokens as the harness:  res/count/capacity/ngens/shape/find/trav *)
 open Zutil
 open GrowModel
@@ -33,34 +35,73 @@ let () = iter_lines (fun line ->
          let known = ref [] in
          let buf = Buffer.create 1024 in
          let first = ref true in
+         let held = ref None in
+         let parse_ann an = match Stdlib.List.map int_of_string (String.split_on_char '.' an) with
+           | [h; af; r; m] -> (h = 1, af = 1, r = 1, sched_of m)
+           | _ -> failwith "bad annotation" in
+         let letter r = match r with
+           | RInserted -> "I" | RAlready -> "A" | RFull -> "U" | RBadAlloc -> "B" | RExn -> "E" | RCheck -> "K"
+           | RFound b -> if b then "F1" else "F0" | RRemoved b -> if b then "R1" else "R0"
+           | RList _ -> "T" | RNum _ -> "C" | RUnit -> "V" in
+         let wrap name x = match x with None -> ("TERMINATE", None) | Some (s', r) -> ((match name with "" -> letter r | n -> n), Some s') in
          Stdlib.List.iter2 (fun ops an ->
            let (k, a) = parse_op ops in
            let key = z_of_string a in
-           if (k = 'i' || k = 'r' || k = 'q') && not (Stdlib.List.mem a !known) then known := !known @ [a];
-           let tok =
+           if (k = 'i' || k = 'r' || k = 'q' || k = 'e') && not (Stdlib.List.mem a !known) then known := !known @ [a];
+           (* one harness token may be several / no model steps *)
+           let (res, nst) =
              match !st with
-             | None -> "TERMINATE"
+             | None -> ("TERMINATE", None)
              | Some s ->
-               let o = match k with
-                 | 'i' | 'v' ->
-                   (match Stdlib.List.map int_of_string (String.split_on_char '.' an) with
-                    | [h; af; r; m] ->
-                      if k = 'i' then OInsert (key, h = 1, af = 1, r = 1, sched_of m)
-                      else OReserve (key, r = 1, sched_of m)
-                    | _ -> failwith "bad annotation")
-                 | 'r' -> ORemove key
-                 | 'q' -> OFind key
-                 | 'x' -> OClear (a = "1")
-                 | 't' -> OTraverse
-                 | _ -> OCount in
-               (match cfg_step cfg s o with
-                | None -> st := None; "TERMINATE"
-                | Some (s', r) ->
+               (match k with
+                | 'i' -> let (h, af, r, sc) = parse_ann an in wrap "" (cfg_step cfg s (OInsert (key, h, af, r, sc)))
+                | 'v' -> let (_, _, r, sc) = parse_ann an in wrap "" (cfg_step cfg s (OReserve (key, r, sc)))
+                | 'r' -> wrap "" (cfg_step cfg s (ORemove key))
+                | 'q' -> wrap "" (cfg_step cfg s (OFind key))
+                | 'x' -> wrap "X" (cfg_step cfg s (OClear (a = "1")))
+                | 'y' -> wrap "Y" (cfg_step cfg s (OClear true))
+                | 'm' -> ("M", Some s)
+                | 't' -> wrap "T" (cfg_step cfg s OTraverse)
+                | 'c' -> ("C", Some s)
+                | 'e' -> (* Extract = pvFind + pvRemove (pvExtract only changes where the item is relocated to) *)
+                  (match cfg_step cfg s (ORemove key) with
+                   | None -> ("TERMINATE", None)
+                   | Some (s', RRemoved true) -> held := Some key; ("E1", Some s')
+                   | Some (s', _) -> held := None; ("E0", Some s'))
+                | 'j' -> (* Insert(ExtractedItem&&) = pvInsert with a nothrow item creator *)
+                  (match !held with
+                   | None -> ("N", Some s)
+                   | Some hk ->
+                     let (h, af, r, sc) = parse_ann an in
+                     (match cfg_step cfg s (OInsert (hk, h, af, r, sc)) with
+                      | None -> ("TERMINATE", None)
+                      | Some (s', r) -> (if r = RInserted then held := None); ("J" ^ letter r, Some s')))
+                | 'p' -> (* p<m>_<r> *)
+                  let us = String.index ops '_' in
+                  let m = z_of_string (String.sub ops 1 (us - 1)) in
+                  let rest = String.sub ops (us + 1) (String.length ops - us - 1) in
+                  (match cfg_step cfg s (ORemoveIf (m, z_of_string rest)) with
+                   | None -> ("TERMINATE", None)
+                   | Some (s', RNum n) -> ("P" ^ string_of_z n, Some s')
+                   | Some (s', _) -> ("P?", Some s'))
+                | 'b' -> (* bulk: n plain insertions of 7000.. *)
+                  let n = int_of_string a in
+                  let cur = ref (Some s) in
+                  for j = 0 to n - 1 do
+                    let kk = string_of_int (7000 + j) in
+                    if not (Stdlib.List.mem kk !known) then known := !known @ [kk];
+                    (match !cur with
+                     | None -> ()
+                     | Some s1 -> (match cfg_step cfg s1 (OInsert (z_of_string kk, false, false, false, [])) with
+                                   | None -> cur := None | Some (s2, _) -> cur := Some s2))
+                  done;
+                  (match !cur with None -> ("TERMINATE", None) | Some s' -> ("L", Some s'))
+                | _ -> ("?", Some s)) in
+           let tok =
+             match nst with
+             | None -> st := None; "TERMINATE"
+             | Some s' ->
                   st := Some s';
-                  let res = match r with
-                    | RInserted -> "I" | RAlready -> "A" | RFull -> "U" | RBadAlloc -> "B" | RExn -> "E" | RCheck -> "K"
-                    | RFound b -> if b then "F1" else "F0" | RRemoved b -> if b then "R1" else "R0"
-                    | RList _ -> "T" | RNum _ -> "C" | RUnit -> (if k = 'x' then "X" else "V") in
                   let sh = ref 0 in
                   let txt = Buffer.create 64 in
                   Stdlib.List.iter (fun (lg, bs) ->
@@ -76,7 +117,7 @@ let () = iter_lines (fun line ->
                   let td = Stdlib.List.fold_left (fun acc x -> dg acc (int_of_z x)) 0 (cfg_traverse cfg s') in
                   Printf.sprintf "%s/%s/%s/%d/%d/%d/%d%s" res (string_of_z (count s')) (string_of_z (capacity s'))
                     (Stdlib.List.length (gens s')) !sh fd td
-                    (if verbose then "{" ^ Buffer.contents txt ^ " }" else "")) in
+                    (if verbose then "{" ^ Buffer.contents txt ^ " }" else "") in
            if not !first then Buffer.add_char buf ' ';
            first := false; Buffer.add_string buf tok) ops anns;
          print_endline (Buffer.contents buf)
